@@ -10,7 +10,7 @@ import os
 import random
 from fractions import Fraction
 
-from .common import case, guarded
+from .common import case, guarded, snapshot, snap_diff
 
 ID = "C05"
 RULE = ("matrices: exhaustive 0/1 matrices (quick <= 3x4 and 4x3, thorough <= 3x5 and 4x4; degenerate 0-row / 0-column "
@@ -584,7 +584,7 @@ def generate(tier, seed):
                 for dom in _rot(rot_rng.randrange(8)):
                     out.append(_icase(dom, alts, prof, exh=1, ncat=1 + (len(out) % 2)))
     # ---- random small (reference runs) --------------------------------------------------------------------
-    nri = 1500 if quick else 12000
+    nri = 1200 if quick else 12000
     mmax = 6 if quick else 7
     for i in range(nri):
         alts, ballots, planted = _rand_instance(rng, mmax, mmax)
@@ -655,6 +655,30 @@ def generate(tier, seed):
                         cur.append(order[a_: rng.randrange(a_, len(order)) + 1])
             steps.append([DOMAINS.index(rng.choice(DOMAINS)), [list(b) for b in cur]])
         out.append(case("c05.history", [list(alts), steps], ncat=1 + (i % 2), gen="history"))
+    # ---- purity / aliasing / lifetime (round-5 lessons): in ONE worker call, first another instance (different size,
+    #      overlapping ids, possibly rejected), then ONE object on which the recognisers are called in several orders
+    #      and twice; after every call the instance must be unchanged (snapshot), the returned witness is spoiled in
+    #      place, and every answer is judged on the ORIGINAL profile.  Variants: numpy.int64 ids, multiplicity keys in
+    #      another order than preferences, recompute_cardinality_param() before asking, the same approval set written
+    #      by two voters in different member order
+    npur = 1200 if quick else 12000
+    for i in range(npur):
+        alts, ballots, _pl = _rand_instance(rng, 6, 6)
+        if len(ballots) >= 1 and rng.random() < 0.6:
+            b0 = list(rng.choice(ballots))
+            b0.reverse()
+            ballots = ballots + [b0]                       # same set, other member order
+        ballots = ballots[:6]
+        alts2, ballots2, _pl2 = _rand_instance(rng, 6, 6)
+        if rng.random() < 0.6 and alts:
+            keep = rng.sample(alts, rng.randint(1, len(alts)))          # overlapping ids, other size / content
+            alts2 = keep + [a for a in alts2 if a not in alts][: rng.randint(0, 3)]
+            ballots2 = [[a for a in alts2 if rng.random() < 0.5] for _ in range(rng.randint(1, 5))]
+        calls = [rng.randrange(8) for _ in range(rng.randint(3, 5))]
+        calls = calls + [rng.choice(calls)] + [calls[0]]                 # each family member may come twice
+        pre_calls = [rng.randrange(8) for _ in range(rng.randint(1, 3))]
+        out.append(case("c05.purity", [list(alts), [list(b) for b in ballots], calls, [list(alts2), [list(b) for b in ballots2], pre_calls]],
+                        ncat=1 + (i % 2), npids=int(i % 4 == 1 and max(alts + alts2 + [0]) < 2 ** 62), multrev=int(i % 3 == 0), recompute=int(i % 5 == 2), gen="purity"))
     # ---- (3) large planted --------------------------------------------------------------------------------
     nbi = 40 if quick else 400
     for i in range(nbi):
@@ -669,8 +693,14 @@ def generate(tier, seed):
 
 # ---------------------------------------------------------------------------------------------------------
 # implementation side
-def _instance(alts, ballots, ncat):
+def _instance(alts, ballots, ncat, npids=False, multrev=False, recompute=False):
+    """npids: identifiers are numpy.int64; multrev: the keys of multiplicity are inserted in the reverse of the order
+    of preferences; recompute: recompute_cardinality_param() is called once the instance is built"""
     from preflibtools.instances import CategoricalInstance
+    if npids:
+        import numpy as np
+        alts = [np.int64(a) for a in alts]
+        ballots = [[np.int64(a) for a in b] for b in ballots]
     inst = CategoricalInstance()
     for a in alts:
         inst.alternatives_name[a] = "Alternative " + str(a)
@@ -684,9 +714,13 @@ def _instance(alts, ballots, ncat):
             pref = (tuple(b), tuple(a for a in alts if a not in b))
         inst.preferences.append(pref)
         inst.multiplicity[pref] = inst.multiplicity.get(pref, 0) + 1
+    if multrev:
+        inst.multiplicity = {k_: inst.multiplicity[k_] for k_ in reversed(list(inst.multiplicity))}
     inst.num_voters = len(ballots)
     inst.num_unique_preferences = len(set(inst.preferences))
     inst.data_type = "cat"
+    if recompute:
+        inst.recompute_cardinality_param()
     return inst
 
 
@@ -704,9 +738,24 @@ def _run_matrix(nc, rows):
     from preflibtools.properties.subdomains.consecutive_ones import solve_consecutive_ones, isC1P
     nr = len(rows)
     mat = np.array(rows, dtype=int).reshape(nr, nc)
+    keep = mat.copy()
     res = solve_consecutive_ones(mat)
     if not (isinstance(res, tuple) and len(res) == 2):
         raise AssertionError("solve_consecutive_ones returned %r" % (res,))
+    if not np.array_equal(mat, keep):
+        raise AssertionError("solve_consecutive_ones modified the matrix of its caller")
+    # the returned order belongs to the caller: spoil it and ask again (same question, same answer expected)
+    first = (bool(res[0]), None if res[1] is None else [int(j) if _is_int(j) else -1 for j in res[1]])
+    if isinstance(res[1], list):
+        res[1].reverse()
+        res[1].append(-7)
+        del res[1][:1]
+    res2 = solve_consecutive_ones(mat)
+    second = (bool(res2[0]), None if res2[1] is None else [int(j) if _is_int(j) else -1 for j in res2[1]])
+    if first != second:
+        raise AssertionError("solve_consecutive_ones answered %r, then %r on the same matrix after the first returned "
+                             "order had been modified by the caller" % (first, second))
+    res = (res2[0], res2[1])
     v, order = res
     if v:
         if order is None or not all(_is_int(j) for j in order):
@@ -716,13 +765,72 @@ def _run_matrix(nc, rows):
         order = []
     iv_list = iv_np = -1
     if nr >= 1 and nc >= 1:
-        iv_list = int(bool(isC1P([list(r) for r in rows])))
+        arg = [list(r) for r in rows]
+        iv_list = int(bool(isC1P(arg)))
+        if arg != [list(r) for r in rows]:
+            raise AssertionError("isC1P modified the matrix (list of lists) of its caller")
+        if int(bool(isC1P(arg))) != iv_list:
+            raise AssertionError("isC1P gave two different answers on the same matrix")
         iv_np = int(bool(isC1P(mat)))
+        if not np.array_equal(mat, keep):
+            raise AssertionError("isC1P modified the matrix (ndarray) of its caller")
     return [int(bool(v)), order, iv_list, iv_np]
 
 
 def _pref(alts, b, ncat):
     return (tuple(b),) if ncat == 1 else (tuple(b), tuple(a for a in alts if a not in b))
+
+
+def _poison(w):
+    """spoil a returned witness in place (it belongs to the caller)"""
+    try:
+        if isinstance(w, list):
+            for x in w:
+                if isinstance(x, set):
+                    x.add(-7)
+                elif isinstance(x, list):
+                    x.append(-7)
+            w.reverse()
+            w.append(-7)
+        elif isinstance(w, dict):
+            for k_ in list(w):
+                w[k_] = (-7, -7)
+            w[-7] = (-7, -7)
+        elif isinstance(w, tuple):
+            for x in w:
+                _poison(x)
+    except Exception:
+        pass
+
+
+def _run_purity(alts, ballots, calls, pre, tags):
+    from preflibtools.properties.subdomains.dichotomous import interval, singlecrossing, euclidean, partition
+    fns = {"ci": interval.is_candidate_interval, "cei": interval.is_candidate_extremal_interval,
+           "vi": interval.is_voter_interval, "vei": interval.is_voter_extremal_interval,
+           "wsc": singlecrossing.is_weakly_single_crossing, "de": euclidean.is_dichotomous_euclidean,
+           "part": partition.is_part, "part2": partition.is_2_part}
+    ncat = tags.get("ncat", 2)
+    # (c) another instance first, in the same process
+    alts2, ballots2, pre_calls = pre
+    other = _instance(alts2, ballots2, ncat)
+    for k_ in pre_calls:
+        try:
+            _poison(fns[DOMAINS[k_]](other)[1])
+        except Exception:
+            pass
+    inst = _instance(alts, ballots, ncat, npids=bool(tags.get("npids")), multrev=bool(tags.get("multrev")),
+                     recompute=bool(tags.get("recompute")))
+    out = []
+    for k_ in calls:
+        dom = DOMAINS[k_]
+        before = snapshot(inst)
+        val, raw = _run_domain(dom, alts, ballots, ncat, inst=inst, want_raw=True)
+        diff = snap_diff(before, snapshot(inst))
+        if diff:
+            raise AssertionError("%s modified the instance it was asked about: %s" % (fns[dom].__name__, diff))
+        out.append(val)
+        _poison(raw)                               # (b) the witness belongs to the caller
+    return out
 
 
 def _run_history(alts, steps, ncat):
@@ -744,7 +852,10 @@ def _run_history(alts, steps, ncat):
     return out
 
 
-def _run_domain(dom, alts, ballots, ncat, inst=None):
+def _run_domain(dom, alts, ballots, ncat, inst=None, want_raw=False):
+    if want_raw:
+        box = []
+        return _run_domain(dom, alts, ballots, ncat, inst=inst, want_raw=box), (box[0] if box else None)
     from preflibtools.properties.subdomains.dichotomous import interval, singlecrossing, euclidean, partition
     if inst is None:
         inst = _instance(alts, ballots, ncat)
@@ -756,6 +867,8 @@ def _run_domain(dom, alts, ballots, ncat, inst=None):
     if not isinstance(res, tuple) or len(res) < 2:
         raise AssertionError("%s returned %r" % (fn.__name__, res))
     v, w = res[0], res[1]
+    if isinstance(want_raw, list):
+        want_raw.append(w)
     if not v:
         return [0, []]
     bad = [1, [-1]]
@@ -799,11 +912,26 @@ def _run_reorder(fam, form):
     try:
         res = reorder_sets(arg)
     except ValueError:
+        if list(arg) != sets:
+            raise AssertionError("reorder_sets modified the family of its caller")
         return [0, [], elems]
+    if list(arg) != sets:
+        raise AssertionError("reorder_sets modified the family of its caller")
     try:
-        return [1, [[int(x) for x in s_] for s_ in res], elems]
+        out = [[int(x) for x in s_] for s_ in res]
     except Exception:
         return [1, [[-1]], elems]
+    # the result belongs to the caller: spoil it (unless it IS the argument: families of <= 2 sets are returned as
+    # they are), then the same question must get the same answer
+    if isinstance(res, list) and res is not arg:
+        res.reverse()
+        res.append((-7,))
+        arg2 = list(sets) if form == 0 else dict.fromkeys(sets).keys()
+        res2 = reorder_sets(arg2)
+        if [[int(x) for x in s_] for s_ in res2] != out:
+            raise AssertionError("reorder_sets gave two different answers on the same family after the first result had "
+                                 "been modified by the caller")
+    return [1, out, elems]
 
 
 def impl(c):
@@ -812,6 +940,8 @@ def impl(c):
         return guarded(_run_reorder, pl[0], c["tags"].get("form", 0))
     if op == "c05.history":
         return guarded(_run_history, pl[0], pl[1], c["tags"].get("ncat", 2))
+    if op == "c05.purity":
+        return guarded(_run_purity, pl[0], pl[1], pl[2], pl[3], c["tags"])
     if op == "c05.matrix":
         return guarded(_run_matrix, pl[0], pl[1])
     if op == "c05.cimat":
@@ -826,8 +956,9 @@ def _plan(c, r):
     op, pl, tags = c["op"], c["payload"], c["tags"]
     okres = isinstance(r, list) and len(r) == 2 and r[0] == 0
     plan = []
-    if op == "c05.history":
-        alts, steps = pl
+    if op in ("c05.history", "c05.purity"):
+        alts = pl[0]
+        steps = pl[1] if op == "c05.history" else [[k_, pl[1]] for k_ in pl[2]]
         for k, (dom_i, ballots) in enumerate(steps):
             dom = DOMAINS[dom_i]
             plan.append((("ref", k), "c05.%s_decide" % dom, [alts, ballots]))
@@ -888,6 +1019,11 @@ def oracle_requests(c, r):
     return [(op, pl) for _, op, pl in _plan(c, r)]
 
 
+def _how(c):
+    return ("in-place edits" if c["op"] == "c05.history"
+            else "the earlier calls (instance untouched by the caller, returned witnesses modified by the caller)")
+
+
 def judge(c, r, mres):
     if not (isinstance(r, list) and len(r) == 2 and r[0] == 0):
         txt = r
@@ -896,19 +1032,19 @@ def judge(c, r, mres):
         return {"kind": "exception", "reason": "implementation raised: %s" % (txt,)}
     ans = {lb: m for (lb, _, _), m in zip(_plan(c, r), mres)}
     val = r[1]
-    if c["op"] == "c05.history":
-        steps = c["payload"][1]
+    if c["op"] in ("c05.history", "c05.purity"):
+        steps = c["payload"][1] if c["op"] == "c05.history" else [[k_, c["payload"][1]] for k_ in c["payload"][2]]
         if len(val) != len(steps):
             return {"kind": "broken-correspondence", "reason": "history adapter returned %d results" % len(val)}
         for k, (dom_i, ballots) in enumerate(steps):
             dom = DOMAINS[dom_i]
             if val[k][0] != ans[("ref", k)]:
-                return ("call %d (%s) on the same instance object after in-place edits: verdict %s, verified reference "
+                return ("call %d (%s) on the same instance object after %s: verdict %s, verified reference "
                         "decider on the current ballots %r says %s"
-                        % (k + 1, dom, bool(val[k][0]), ballots, bool(ans[("ref", k)])))
+                        % (k + 1, dom, _how(c), bool(val[k][0]), ballots, bool(ans[("ref", k)])))
             if val[k][0] == 1 and ans.get(("witness", k)) != 1:
-                return ("call %d (%s) on the same instance object after in-place edits: witness %r rejected by the "
-                        "verified checker for the current ballots %r" % (k + 1, dom, val[k][1], ballots))
+                return ("call %d (%s) on the same instance object after %s: witness %r rejected by the "
+                        "verified checker for the current ballots %r" % (k + 1, dom, _how(c), val[k][1], ballots))
         return None
     if c["op"] == "c05.cimat":
         if "mat" not in ans:
@@ -966,6 +1102,9 @@ def judge(c, r, mres):
 
 
 def _rows_of(c):
+    if c["op"] == "c05.purity":
+        alts, ballots = c["payload"][0], c["payload"][1]
+        return len(alts), [[int(a in b) for a in alts] for b in ballots]
     if c["op"] == "c05.history":
         alts, steps = c["payload"]
         return len(alts), [[int(a in b) for a in alts] for b in steps[-1][1]]
@@ -985,6 +1124,9 @@ def nontrivial(c, r, m):
 
 
 def _distinct_cols(c):
+    if c["op"] == "c05.purity":
+        alts, ballots = c["payload"][0], c["payload"][1]
+        return len({tuple(a in b for b in ballots) for a in alts})
     if c["op"] == "c05.history":
         alts, steps = c["payload"]
         return len({tuple(a in b for b in steps[-1][1]) for a in alts})
@@ -1004,6 +1146,9 @@ def stats(c, r, m):
     tags = c["tags"]
     ref = "ref" if any(lb == "ref" for lb, _, _ in _plan(c, r)) else (
         "planted" if "planted" in tags else ("refuted-core" if "core" in tags else "witness-only"))
+    if c["op"] == "c05.purity":
+        return ["purity calls=%d" % len(c["payload"][2]),
+                "purity npids=%s multrev=%s recompute=%s" % (tags.get("npids", 0), tags.get("multrev", 0), tags.get("recompute", 0))]
     if c["op"] == "c05.history":
         out_ = ["history calls=%d" % len(c["payload"][1])]
         if isinstance(v, list) or v == "exc":
@@ -1038,6 +1183,14 @@ def stats(c, r, m):
 
 
 def describe(c):
+    if c["op"] == "c05.purity":
+        pl = c["payload"]
+        return {"call": "first another instance is built and asked (same process), then ONE CategoricalInstance object is "
+                        "asked by the listed recognisers in this order; every returned witness is modified in place by the "
+                        "caller; the instance must stay unchanged and every answer is judged on the original profile",
+                "alternatives_name keys": pl[0], "approval sets": pl[1], "calls": [DOMAINS[k_] for k_ in pl[2]],
+                "instance asked before": {"alternatives": pl[3][0], "approval sets": pl[3][1], "calls": [DOMAINS[k_] for k_ in pl[3][2]]},
+                "variants": {k_: c["tags"].get(k_, 0) for k_ in ("ncat", "npids", "multrev", "recompute")}}
     if c["op"] == "c05.history":
         return {"call": "one CategoricalInstance object; before each call instance.preferences is edited in place to "
                         "the listed approval sets (same number of ballots)",
@@ -1056,6 +1209,19 @@ def describe(c):
 
 def shrink(c):
     tags = {k: v for k, v in c["tags"].items() if k not in ("planted", "exh", "core")}
+    if c["op"] == "c05.purity":
+        alts, ballots, calls, pre = c["payload"]
+        ptags = c["tags"]
+        for k in range(len(calls)):
+            if len(calls) > 1:
+                yield dict(c, payload=[alts, ballots, calls[:k] + calls[k + 1:], pre], tags=ptags)
+        yield dict(c, payload=[alts, ballots, calls, [[], [], []]], tags=ptags)
+        for j in range(len(ballots)):
+            if len(ballots) > 1:
+                yield dict(c, payload=[alts, ballots[:j] + ballots[j + 1:], calls, pre], tags=ptags)
+        for a in alts:
+            yield dict(c, payload=[[x for x in alts if x != a], [[x for x in b if x != a] for b in ballots], calls, pre], tags=ptags)
+        return
     if c["op"] == "c05.history":
         alts, steps = c["payload"]
         for k in range(len(steps)):
@@ -1105,6 +1271,7 @@ def shrink(c):
 
 THEOREMS_FOR_OP = {
     "c05.matrix": "c1p_decide_correct, c1p_check_correct", "c05.cimat": "ci_reduction",
+    "c05.purity": "X_decide_correct, X_check_correct (every call judged on the original profile; instance unchanged)",
     "c05.history": "X_decide_correct, X_check_correct (each call judged on the current ballots)",
     "c05.reorder": "sets_decide_correct, sets_check_correct (reorder_contract -> solve_model_correct, isC1P_model_correct)",
     "c05.ci": "ci_decide_correct, ci_check_correct", "c05.cei": "cei_decide_correct, cei_check_correct",
